@@ -76,8 +76,13 @@ def gen_case(r):
                 out.append(("clear_status_flags", r.random() < 0.5, r.random() < 0.5, r.random() < 0.5))
             elif x < 0.85:
                 out.append(("flush_rx",) if r.random() < 0.6 else ("flush_tx",))
-            elif x < 0.93:
+            elif x < 0.90:
                 out.append(("interrupt_config", r.random() < 0.5, r.random() < 0.5, r.random() < 0.5))
+            elif x < 0.94:
+                # another attribute that lives in CONFIG is (re)assigned while an IRQ mask is in effect (both ends, so that
+                # the link stays compatible)
+                v = r.choice([0, 1, 2])
+                out += [("select", 0), ("crc=", v), ("select", DUT), ("crc=", v)]
             else:
                 out.append(("last_tx_arc",))
         return out
